@@ -32,6 +32,10 @@ pub struct Plan {
     pub yield_mode: u32,
     /// probability (out of 16) that a yield point fires
     pub yield_p: u32,
+    /// multi-threaded mode: every caller is an OS thread with its own runtime under the cooperative thread
+    /// scheduler (switches at the H5 points, at the lock-aware points inside Call, and whenever a caller is pending)
+    #[serde(default)]
+    pub mt: bool,
 }
 
 #[derive(Default)]
@@ -136,7 +140,12 @@ impl Engine for FlightEngine {
             schedule_seed: rng.next_u64(),
             yield_mode: rng.weighted(&[1, 3, 4]) as u32,
             yield_p: *rng.pick(&[2u32, 4, 8, 12, 16]),
+            mt: rng.chance(1, 3),
         };
+        let mut p = p;
+        if p.mt && p.callers.len() > 4 {
+            p.callers.truncate(4);
+        }
         serde_json::to_value(p).unwrap()
     }
 
@@ -153,6 +162,34 @@ impl Engine for FlightEngine {
             result: vec![None; n],
             ..Default::default()
         }));
+        let (hung, sim_ms) = if p.mt {
+            run_mt(&p, log.clone())
+        } else {
+            run_st(&p, log.clone())
+        };
+        let _ = take_last_panic();
+        rep.sim_ms = sim_ms;
+        check_history(&p, &log, hung, &mut rep);
+        rep
+    }
+
+    fn shrink(&self, plan: &Value) -> Vec<Value> {
+        shrink_plan(plan)
+    }
+
+    fn rule(&self, _focus: &str) -> String {
+        "Each run: 1-8 callers over 1-3 keys with seeded arrival times and task durations, tasks that succeed with a unique token, fail with a unique message, or panic. Two execution modes: (single-threaded) a paused-clock current-thread runtime where at each of the five guarded yield points inside Group::work the schedule stream decides whether the caller yields or sleeps; (multi-threaded, one run in three) every caller is an OS thread with its own runtime under the cooperative one-thread-at-a-time scheduler, which switches at those yield points, at lock-aware points inside Call::{get_future,complete} that are live only where the result lock is not held, and whenever a caller's future is pending; a run in which every remaining caller stays pending is a hang. Non-trivial: at least one caller received another caller's outcome (a waiter overlapped a flight) and at least one schedule decision fired. Distinct: hash of the per-caller (invoke, return, task start) event numbers, key and outcome kind.".into()
+    }
+    fn real_vs_stub(&self) -> Value {
+        json!({"real": ["utils::singleflight::{Group, Call, OwnerTask}", "tokio Mutex/Notify/JoinHandle, parking_lot RwLock"], "simulated": ["arrival times, task durations (paused clock)", "scheduling between lock sections (H5 yield points)", "multi-threaded mode: OS-thread interleaving at H5 points, lock-aware points and pending polls"], "limit": "interleavings at lock-section granularity plus wherever a lock-aware point finds the result lock free; not at atomic-instruction granularity"})
+    }
+    fn assumptions(&self, _focus: &str) -> Vec<String> {
+        vec!["tokio's primitives are trusted; multi-threaded interleavings are emulated by yields/sleeps at the guarded points between lock sections and, in multi-threaded mode, by a cooperative thread scheduler (DESIGN §7 C20).".into()]
+    }
+}
+
+fn run_st(p: &Plan, log: Arc<Mutex<Log>>) -> (bool, u64) {
+    {
         let rt = tokio::runtime::Builder::new_current_thread().enable_all().start_paused(true).build().unwrap();
         let hooks: Arc<dyn utils::verif::Hooks> = Arc::new(FlightHooks {
             log: log.clone(),
@@ -232,8 +269,13 @@ impl Engine for FlightEngine {
             (hung, start.elapsed().as_millis() as u64)
         });
         drop(rt);
-        let _ = take_last_panic();
-        rep.sim_ms = sim_ms;
+        (hung, sim_ms)
+    }
+}
+
+fn check_history(p: &Plan, log: &Arc<Mutex<Log>>, hung: bool, rep: &mut RunReport) {
+    let n = p.callers.len();
+    {
         let l = log.lock().unwrap();
         // C20.e
         for i in 0..n {
@@ -365,58 +407,170 @@ impl Engine for FlightEngine {
             words.push(p.callers[i].key as u64 * 4 + p.callers[i].outcome as u64);
         }
         rep.signature = mix(&words);
-        rep.sample = Some(json!({"callers": p.callers.iter().map(|c| json!([c.key, c.arrival_ms, c.task_ms, c.outcome])).collect::<Vec<_>>(), "yield_mode": p.yield_mode, "flights": ran, "yields_fired": l.yields_fired}));
-        rep
+        rep.sample = Some(json!({"callers": p.callers.iter().map(|c| json!([c.key, c.arrival_ms, c.task_ms, c.outcome])).collect::<Vec<_>>(), "yield_mode": p.yield_mode, "multi_threaded": p.mt, "flights": ran, "yields_fired": l.yields_fired}));
+        rep.count(if p.mt { "runs:multi_threaded" } else { "runs:single_threaded" }, 1);
     }
+}
 
-    fn shrink(&self, plan: &Value) -> Vec<Value> {
-        let p: Plan = serde_json::from_value(plan.clone()).expect("flight plan");
-        let mut out = Vec::new();
-        for i in 0..p.callers.len() {
-            if p.callers.len() > 1 {
-                let mut q = p.clone();
-                q.callers.remove(i);
-                out.push(q);
-            }
-        }
-        if p.yield_mode > 0 {
+fn shrink_plan(plan: &Value) -> Vec<Value> {
+    let p: Plan = serde_json::from_value(plan.clone()).expect("flight plan");
+    let mut out = Vec::new();
+    for i in 0..p.callers.len() {
+        if p.callers.len() > 1 {
             let mut q = p.clone();
-            q.yield_mode -= 1;
+            q.callers.remove(i);
             out.push(q);
         }
-        for i in 0..p.callers.len() {
-            let c = &p.callers[i];
-            if c.outcome != 0 {
-                let mut q = p.clone();
-                q.callers[i].outcome = 0;
-                out.push(q);
-            }
-            if c.arrival_ms != 0 {
-                let mut q = p.clone();
-                q.callers[i].arrival_ms = 0;
-                out.push(q);
-            }
-            if c.task_ms > 1 {
-                let mut q = p.clone();
-                q.callers[i].task_ms = 1;
-                out.push(q);
-            }
-            if c.key != 0 {
-                let mut q = p.clone();
-                q.callers[i].key = 0;
-                out.push(q);
-            }
+    }
+    if p.yield_mode > 0 && !p.mt {
+        let mut q = p.clone();
+        q.yield_mode -= 1;
+        out.push(q);
+    }
+    for i in 0..p.callers.len() {
+        let c = &p.callers[i];
+        if c.outcome != 0 {
+            let mut q = p.clone();
+            q.callers[i].outcome = 0;
+            out.push(q);
         }
-        out.into_iter().map(|q| serde_json::to_value(q).unwrap()).collect()
+        if c.arrival_ms != 0 {
+            let mut q = p.clone();
+            q.callers[i].arrival_ms = 0;
+            out.push(q);
+        }
+        if c.task_ms > 1 {
+            let mut q = p.clone();
+            q.callers[i].task_ms = 1;
+            out.push(q);
+        }
+        if c.key != 0 {
+            let mut q = p.clone();
+            q.callers[i].key = 0;
+            out.push(q);
+        }
     }
+    out.into_iter().map(|q| serde_json::to_value(q).unwrap()).collect()
+}
 
-    fn rule(&self, _focus: &str) -> String {
-        "Each run: 1-8 callers over 1-3 keys with seeded arrival times and task durations (simulated ms on the paused clock), tasks that succeed with a unique token, fail with a unique message, or panic; at each of the five guarded yield points inside Group::work the schedule stream decides whether the caller yields or sleeps, so another caller can run between any two lock sections. Non-trivial: at least one caller received another caller's outcome (a waiter overlapped a flight) and at least one yield point fired. Distinct: hash of the per-caller (invoke, return, task start) event numbers, key and outcome kind.".into()
+// ------------------------------------------------------------------------------------------------
+// multi-threaded mode
+
+struct MtHooks {
+    sched: Arc<crate::sched::Sched>,
+    tid: usize,
+    log: Arc<Mutex<Log>>,
+}
+
+impl utils::verif::Hooks for MtHooks {
+    fn point(&self, label: &'static str) {
+        self.log.lock().unwrap().yields_fired += 1;
+        self.sched.point(self.tid, label);
     }
-    fn real_vs_stub(&self) -> Value {
-        json!({"real": ["utils::singleflight::{Group, Call, OwnerTask}", "tokio Mutex/Notify/JoinHandle, parking_lot RwLock"], "simulated": ["arrival times, task durations (paused clock)", "scheduling between lock sections (H5 yield points)"], "limit": "single-threaded runtime: interleavings at lock-section granularity, not at atomic-instruction granularity"})
+    fn delay(&self, label: &'static str) -> Option<Duration> {
+        // the async yield points between lock sections become thread-switch points
+        self.log.lock().unwrap().yields_fired += 1;
+        self.sched.point(self.tid, label);
+        None
     }
-    fn assumptions(&self, _focus: &str) -> Vec<String> {
-        vec!["tokio's primitives are trusted; multi-threaded interleavings are emulated by yields/sleeps at the guarded points between lock sections (DESIGN §7 C20).".into()]
+}
+
+/// Drives a caller's future; whenever it is pending the thread hands control to the scheduler and asks to be polled
+/// again. Resolves to None when the scheduler found that nobody can make progress any more.
+struct Stepper<F> {
+    inner: std::pin::Pin<Box<F>>,
+    sched: Arc<crate::sched::Sched>,
+    tid: usize,
+}
+
+impl<F: std::future::Future> std::future::Future for Stepper<F> {
+    type Output = Option<F::Output>;
+    fn poll(mut self: std::pin::Pin<&mut Self>, cx: &mut std::task::Context<'_>) -> std::task::Poll<Self::Output> {
+        match self.inner.as_mut().poll(cx) {
+            std::task::Poll::Ready(v) => std::task::Poll::Ready(Some(v)),
+            std::task::Poll::Pending => {
+                if self.sched.blocked(self.tid) {
+                    return std::task::Poll::Ready(None);
+                }
+                cx.waker().wake_by_ref();
+                std::task::Poll::Pending
+            },
+        }
     }
+}
+
+fn run_mt(p: &Plan, log: Arc<Mutex<Log>>) -> (bool, u64) {
+    let n = p.callers.len();
+    let sched = crate::sched::Sched::new(n, p.schedule_seed, (p.schedule_seed % 4) as u32, std::env::var("XSIM_TRACE").is_ok());
+    let group: Arc<Group<u64, String>> = Arc::new(Group::new());
+    let mut hs = Vec::new();
+    for (i, c) in p.callers.iter().cloned().enumerate() {
+        let sched = sched.clone();
+        let log = log.clone();
+        let g = group.clone();
+        hs.push(std::thread::spawn(move || {
+            utils::verif::install(Some(Arc::new(MtHooks { sched: sched.clone(), tid: i, log: log.clone() })));
+            sched.enter(i);
+            let rt = tokio::runtime::Builder::new_current_thread().enable_all().build().unwrap();
+            let tlog = log.clone();
+            let main = async move {
+                for _ in 0..c.arrival_ms.min(3) {
+                    utils::verif::point("caller:arrive");
+                }
+                let tl2 = tlog.clone();
+                let fut = async move {
+                    {
+                        let mut l = tl2.lock().unwrap();
+                        l.seq += 1;
+                        let s = l.seq;
+                        l.task_start[i] = Some(s);
+                        l.task_runs[i] += 1;
+                    }
+                    for _ in 0..c.task_ms.min(3) {
+                        utils::verif::point("task:step");
+                    }
+                    {
+                        let mut l = tl2.lock().unwrap();
+                        l.seq += 1;
+                        let s = l.seq;
+                        l.task_end[i] = Some(s);
+                    }
+                    match c.outcome {
+                        0 => Ok(i as u64),
+                        1 => Err(format!("failure of task#{i}")),
+                        _ => panic!("panic in task#{i}"),
+                    }
+                };
+                {
+                    let mut l = tlog.lock().unwrap();
+                    l.seq += 1;
+                    let s = l.seq;
+                    l.invoke[i] = Some(s);
+                }
+                let (res, owner) = g.work(&format!("key{}", c.key), fut).await;
+                let r = match res {
+                    Ok(t) => Res::Ok(t),
+                    Err(SingleflightError::InternalError(e)) => Res::Err(e),
+                    Err(SingleflightError::WaiterInternalError(e)) => Res::Err(e),
+                    Err(SingleflightError::JoinError(e)) => Res::Panic(e),
+                    Err(SingleflightError::OwnerPanicked) => Res::Panic("owner panicked".into()),
+                    Err(e) => Res::Other(format!("{e:?}")),
+                };
+                let mut l = tlog.lock().unwrap();
+                l.seq += 1;
+                let s = l.seq;
+                l.ret[i] = Some(s);
+                l.result[i] = Some((r, owner));
+            };
+            let _ = rt.block_on(Stepper { inner: Box::pin(main), sched: sched.clone(), tid: i });
+            // let a still-running owner task of this runtime finish before the runtime goes away
+            drop(rt);
+            utils::verif::install(None);
+            sched.finish(i);
+        }));
+    }
+    for h in hs {
+        let _ = h.join();
+    }
+    (sched.is_stalled(), 0)
 }
